@@ -61,7 +61,7 @@ inline void emplace_at(L& list, bool front, uint32_t id)
 }
 
 struct Act {
-    char kind;   // R traverse, E erase, F/B push_front/back, f/b emplace_front/back, H short handle, K keep handle, W traverse with a write handle
+    char kind;   // R traverse, Z early reader (handle touched on the empty list, traversal later), E erase, F/B push_front/back, f/b emplace_front/back, H short handle, K keep handle, W traverse with a write handle
     int arg;     // E: target id (-1 all, -2 first); F/B/f/b: id; R/W: pause index (-1 none); K: number of following actions to keep the handle for
     int pause;   // number of pause points
     bool via_star = false;  // reach the list through operator* of the handle instead of operator->
@@ -101,6 +101,7 @@ struct Fixture {
     std::vector<Traversal> trav[vrf::MAXT];
     std::vector<MutEvent> muts[vrf::MAXT];
     uint64_t node_destroys_with_live_handle_before = 0;
+    std::atomic<int> pushes_done{0};
 
     Fixture() { g.reset(new G(vrf::TrackAlloc<T>(&as))); }
 
@@ -116,7 +117,7 @@ struct Fixture {
     }
 
     template<class H>
-    void traverse(H& h, int tid, const Act& a, bool write_handle)
+    void traverse(H& h, int tid, const Act& a, bool write_handle, bool first_use = true)
     {
         Traversal tv;
         tv.thread = tid;
@@ -125,7 +126,7 @@ struct Fixture {
         tv.call = vrf::now();
         auto it = a.via_star ? (*h).begin() : h->begin();
         live_handles.fetch_add(1, std::memory_order_relaxed);
-        handles_taken.fetch_add(1, std::memory_order_relaxed);
+        if (first_use) handles_taken.fetch_add(1, std::memory_order_relaxed);
         int idx = 0;
         bool stop = false;
         // the iterator interface is used in all its spellings (pre/post increment, both comparison directions, * and ->)
@@ -174,6 +175,23 @@ struct Fixture {
                     traverse(h, tid, a, true);
                     break;
                 }
+                case 'Z': {
+                    // early reader: the handle is dereferenced first while the list is (possibly) still empty, the reference
+                    // it returned is kept, and the traversal starts once a writer has put something in
+                    RH h(g->lock_read());
+                    const auto& view = *h;
+                    (void)view.begin();
+                    handles_taken.fetch_add(1, std::memory_order_relaxed);
+                    vrf::spin_until([&] { return view.begin() != view.end() || pushes_done.load(std::memory_order_relaxed) != 0; });
+                    // everything from here on goes through the reference obtained by the first dereference
+                    struct ViewHandle {
+                        decltype(&view) v;
+                        auto operator->() const { return v; }
+                        auto& operator*() const { return *v; }
+                    } vh{&view};
+                    traverse(vh, tid, a, false, false);
+                    break;
+                }
                 case 'H': {
                     RH h(g->lock_read());
                     if (a.via_star) (void)(*h).begin();
@@ -198,6 +216,7 @@ struct Fixture {
                     if (a.kind == 'F') h->push_front(Val<T>::make(ev.id));
                     else if (a.kind == 'B') h->push_back(Val<T>::make(ev.id));
                     else emplace_at<T>(*h, a.kind == 'f', ev.id);
+                    pushes_done.fetch_add(1, std::memory_order_relaxed);
                     handles_taken.fetch_add(1, std::memory_order_relaxed);
                     ev.ret = vrf::now();
                     muts[tid].push_back(ev);
@@ -316,8 +335,23 @@ struct Program {
 inline Program gen_reclaim_program(vrf::Rng& rng, uint32_t first_new_id, bool alloc_faults_allowed = false)
 {
     Program p;
-    p.initial = static_cast<int>(rng.range(2, 5));
     uint32_t next = first_new_id;
+    if (rng.chance(15)) {
+        // empty start: the parked reader takes and touches its handle before anything is in the list; what a writer adds
+        // afterwards (and erases again) is still protected by that handle
+        p.initial = 0;
+        p.scripts.push_back(std::vector<Act>{Act{'Z', 0, static_cast<int>(rng.range(3, 8)), false}});
+        std::vector<Act> w;
+        uint32_t a = next++;
+        w.push_back(Act{rng.chance(50) ? 'B' : 'f', static_cast<int>(a), 0, false});
+        if (rng.chance(50)) w.push_back(Act{'B', static_cast<int>(next++), 0, false});
+        w.push_back(Act{'E', static_cast<int>(a), static_cast<int>(rng.below(2)), rng.chance(35)});
+        for (int i = static_cast<int>(rng.range(1, 3)); i > 0; i--) w.push_back(Act{'H', 0, 0, rng.chance(35)});
+        p.scripts.push_back(w);
+        if (rng.chance(60)) p.scripts.push_back(std::vector<Act>{Act{'H', 0, 0, false}, Act{'H', 0, 0, true}, Act{'R', -1, 0, false}});
+        return p;
+    }
+    p.initial = static_cast<int>(rng.range(2, 5));
     int park = static_cast<int>(rng.range(0, p.initial - 1));
     std::vector<Act> reader{Act{rng.chance(80) ? 'R' : 'W', park, static_cast<int>(rng.range(3, 8)), rng.chance(35)}};
     if (rng.chance(40)) reader.push_back(Act{'R', static_cast<int>(rng.range(0, 2)), static_cast<int>(rng.range(1, 4)), rng.chance(35)});
